@@ -56,7 +56,12 @@ func (r *bytesReader) Read(data []byte) (int, error) {
 
 // Buffer holds an in-memory implementation of ociregistry.BlobWriter.
 type Buffer struct {
-	commit           func(b *Buffer) error
+	commit func(b *Buffer) error
+	// commitMu is held for reading while writing data and for writing
+	// for the whole of Commit, so that no data can arrive between
+	// checking the digest and invoking the commit function:
+	// otherwise Commit would not appear to be atomic to concurrent callers.
+	commitMu         sync.RWMutex
 	mu               sync.Mutex
 	buf              []byte
 	checkStartOffset int64
@@ -126,6 +131,8 @@ func (b *Buffer) GetBlob() (ociregistry.Descriptor, []byte, error) {
 
 // Write implements io.Writer by writing some data to the blob.
 func (b *Buffer) Write(data []byte) (int, error) {
+	b.commitMu.RLock()
+	defer b.commitMu.RUnlock()
 	b.mu.Lock()
 	defer b.mu.Unlock()
 	if offset := b.checkStartOffset; offset != -1 {
@@ -157,6 +164,8 @@ func (b *Buffer) ID() string {
 // Commit implements [ociregistry.BlobWriter.Commit] by checking
 // that everything looks OK and calling the commit function if so.
 func (b *Buffer) Commit(dig ociregistry.Digest) (_ ociregistry.Descriptor, err error) {
+	b.commitMu.Lock()
+	defer b.commitMu.Unlock()
 	if err := b.checkCommit(dig); err != nil {
 		return ociregistry.Descriptor{}, err
 	}
